@@ -75,7 +75,7 @@ def make_note(rng, api):
 _NOTEVALS = None
 
 
-def new_pattern(rng, api, tracks, lines, attached):
+def new_pattern(rng, api, tracks, lines, attached, shrink=True):
     p = api.Pattern(tracks=tracks, lines=lines)
     # pre-fill with recognisable content
     for ln in range(lines):
@@ -93,6 +93,12 @@ def new_pattern(rng, api, tracks, lines, attached):
                 n.module = rng.randrange(65536) if style == 3 else 0
                 n.ctl = rng.randrange(65536)
                 n.val = (ln << 8 | tr) & 0xFFFF
+    if shrink and rng.random() < 0.12 and (lines > 1 or tracks > 1):
+        # the pattern is made smaller after its notes exist ("edit only the first N lines"): the cells beyond stay where they are
+        if lines > 1 and rng.random() < 0.6:
+            p.lines = rng.randint(1, lines - 1)
+        else:
+            p.tracks = rng.randint(1, max(1, tracks - 1))
     proj = None
     if attached:
         proj = api.Project()
@@ -139,7 +145,8 @@ def ownership_ok(res, pat, proj, case, setter):
 
 def edit(res, rng, api, pat, proj, setter, fault_at, scribble, dup_yield, case, scroll=False):
     """Perform one bulk edit with an optional injected fault. Returns True if no violation."""
-    tracks, lines = pat.tracks, pat.lines
+    tracks, lines = pat.tracks, pat.lines           # the DECLARED shape: what the bulk setters walk
+    glines, gtracks = len(pat.data), len(pat.data[0]) if pat.data else 0     # the grid that exists (larger after the pattern was made smaller)
     before_raw = pat.raw_data
     before_ids = [[id(n) for n in line] for line in pat.data]
     before_cells = [[n.raw_data for n in line] for line in pat.data]
@@ -228,6 +235,10 @@ def edit(res, rng, api, pat, proj, setter, fault_at, scribble, dup_yield, case, 
                 else:
                     note = make_note(rng, api)
                     expected[ln][tr] = note.raw_data
+                if glines == lines and gtracks == tracks and rng.random() < 0.1:
+                    # cells counted from the end, as everywhere in Python ("the last line": -1)
+                    yield (ln - lines if rng.random() < 0.7 else ln), (tr - tracks if rng.random() < 0.5 else tr), note
+                    continue
                 yield ln, tr, note
             if fault_at is not None and counter["n"] == fault_at and fault_type is not NonNote:
                 raise fault_type("after last yield")
@@ -265,8 +276,8 @@ def edit(res, rng, api, pat, proj, setter, fault_at, scribble, dup_yield, case, 
     if raised is not None:
         res.count("edits_failed_injected")
         res.count("atomicity_checks")
-        if pat.raw_data != before_raw or [len(l) for l in pat.data] != [tracks] * lines:
-            changed = [(ln, tr) for ln in range(lines) for tr in range(tracks) if pat.data[ln][tr].raw_data != before_cells[ln][tr]][:5]
+        if pat.raw_data != before_raw or [len(l) for l in pat.data] != [gtracks] * glines:
+            changed = [(ln, tr) for ln in range(min(glines, len(pat.data))) for tr in range(min(gtracks, len(pat.data[ln]))) if pat.data[ln][tr].raw_data != before_cells[ln][tr]][:5]
             res.violation(f"C19:not-atomic:{setter}", f"{setter} failed at {raised} but cells {changed} changed", case)
             return False
         if [[id(n) for n in line] for line in pat.data] != before_ids:
@@ -284,8 +295,12 @@ def edit(res, rng, api, pat, proj, setter, fault_at, scribble, dup_yield, case, 
         res.violation(f"C19:non-note-installed:{setter}", f"after a {setter} that reported success, cells {strangers[:4]} hold objects that are not notes", case)
         return False
     got = [[n.raw_data for n in line] for line in pat.data]
+    if [len(r_) for r_ in got] != [gtracks] * glines:
+        res.violation(f"C19:untouched-cell-changed:{setter}", f"after successful {setter}: the grid is {len(got)} x {sorted(set(len(r_) for r_ in got))}, it was {glines} x {gtracks} "
+                                                             f"(declared shape {lines} x {tracks}): cells the edit never visited are gone", case)
+        return False
     if got != expected:
-        diff = [(ln, tr) for ln in range(lines) for tr in range(tracks) if got[ln][tr] != expected[ln][tr]][:5]
+        diff = [(ln, tr) for ln in range(glines) for tr in range(gtracks) if got[ln][tr] != expected[ln][tr]][:5]
         kind = "untouched-cell-changed" if any(expected[ln][tr] == before_cells[ln][tr] for ln, tr in diff) else "wrong-note"
         res.violation(f"C19:{kind}:{setter}", f"after successful {setter}: cells {diff} differ from the notes supplied", case)
         return False
@@ -348,14 +363,14 @@ def foreign_owned_notes(res, rng, api):
                 if attached_src:
                     sp = api.Project()
                     sp.attach_pattern(src)
-                dst, proj = new_pattern(rng, api, 3, 4, attached_dst)
+                dst, proj = new_pattern(rng, api, 3, 4, attached_dst, shrink=False)
                 case = {"setter": setter, "source_attached": attached_src, "destination_attached": attached_dst, "notes": "taken from another pattern"}
                 res.case(("foreign-notes", setter, attached_src, attached_dst))
                 res.count("foreign_owned_note_edits")
                 # once in a process that turns warnings into errors: whatever the library has to say about such notes, the
                 # edit is all-or-nothing there too
                 import warnings
-                dst2, _ = new_pattern(rng, api, 3, 4, attached_dst)
+                dst2, _ = new_pattern(rng, api, 3, 4, attached_dst, shrink=False)
                 src2 = api.Pattern(tracks=3, lines=4)
                 for ln in range(4):
                     for tr in range(3):
@@ -394,7 +409,7 @@ def run_exhaustive(res, rng, api, shapes):
         cells = tracks * lines
         for attached in (False, True):
             for setter in ("fn", "gen"):
-                pat, proj = new_pattern(rng, api, tracks, lines, attached)
+                pat, proj = new_pattern(rng, api, tracks, lines, attached, shrink=False)
                 points = list(range(cells)) if setter == "fn" else list(range(cells + 1))
                 for k in points + [None]:
                     scribble = setter == "gen" and k is not None and k % 3 == 1
@@ -402,7 +417,7 @@ def run_exhaustive(res, rng, api, shapes):
                     res.case((tracks, lines, attached, setter, k))
                     res.hist("fault_points_by_setter", setter if k is not None else setter + "-success")
                     if not edit(res, rng, api, pat, proj, setter, k, scribble, False, case):
-                        pat, proj = new_pattern(rng, api, tracks, lines, attached)
+                        pat, proj = new_pattern(rng, api, tracks, lines, attached, shrink=False)
                 # the successful edit once more, this time moving the pattern's own cell objects around
                 case = {"tracks": tracks, "lines": lines, "attached": attached, "setter": setter, "fault_at": None, "scroll": True}
                 res.count("edits_moving_own_cells")
@@ -415,6 +430,9 @@ def run_random(res, rng, api, n):
         tracks, lines = rng.randint(1, 32), rng.randint(1, 64 if rng.random() < 0.2 else 12)
         attached = rng.random() < 0.5
         pat, proj = new_pattern(rng, api, tracks, lines, attached)
+        if (pat.tracks, pat.lines) != (tracks, lines):
+            res.count("patterns_made_smaller_after_their_notes_existed")
+        tracks, lines = pat.tracks, pat.lines
         chain = []
         for c in range(rng.randint(2, 5)):
             setter = rng.choice(("fn", "gen"))
@@ -457,7 +475,7 @@ def replay(case, res):
     from rv.note import NOTECMD
     _NOTEVALS = sorted({int(m) for m in NOTECMD})
     rng = random.Random(0)
-    pat, proj = new_pattern(rng, api, case["tracks"], case["lines"], case.get("attached", False))
+    pat, proj = new_pattern(rng, api, case["tracks"], case["lines"], case.get("attached", False), shrink=False)
     if "chain" in case:
         for setter, fault, scribble, dup, *rest in case["chain"]:
             if not edit(res, rng, api, pat, proj, setter, fault, scribble, dup, case, scroll=bool(rest and rest[0])):
